@@ -15,7 +15,7 @@ RULE = ('Part heap (model-based, histories): generated alloc/free histories of 1
         'capacity vectors x c_caps_min in {1,4} x {c_reuse} x {strip_forks}: live interval of every written signal recomputed in levels from ops / '
         'level_starts (stems by walking the circuit); signals with overlapping live intervals have disjoint regions, all regions inside [0, c_len), '
         'stripped branches alias their stem, output slots alias s_nodes[i].ins[0], inputs / captured lines / special slots live for ever. '
-        'non-trivial: heap history with a two-sided coalescing free and a split; map with c_reuse and a region used by >= 2 signals. distinct by SHA-1.')
+        'non-trivial: heap history with a two-sided coalescing free and a split; map with c_reuse and a region used by >= 2 signals. distinct by SHA-1. Floating nets (undriven forks on otherwise unconnected operand pins) occur in 2 cases of 5.')
 ASSUMPTIONS = ['Heap internals (chunks, released, current_size, max_size) are inspected directly: the statement speaks about tiling, coalescing and the '
                'high-water mark, which are only observable there']
 
